@@ -415,8 +415,8 @@ def check_roll(res, case, o, stats, cache):
         pr, idx = out
     else:
         pr, idx = out, None
-    if isinstance(pr, tuple) or not hasattr(pr, "toarray"):
-        res.fail("shape", expected="a sparse matrix", observed=type(pr).__name__, where="compute_pianoroll", detail=detail)
+    if isinstance(pr, tuple) or not hasattr(pr, "shape"):
+        res.fail("shape", expected="a matrix", observed=type(pr).__name__, where="compute_pianoroll", detail=detail)
         return
     exp = ref["dense"]
     stats["nnz"] += int(np.count_nonzero(exp))
@@ -425,7 +425,7 @@ def check_roll(res, case, o, stats, cache):
     if tuple(pr.shape) != (ref["M"], ref["N"]):
         res.fail("shape", expected=[ref["M"], ref["N"]], observed=list(pr.shape), where="compute_pianoroll shape", detail=detail)
         return
-    got = np.asarray(pr.toarray())
+    got = np.asarray(pr.toarray() if hasattr(pr, "toarray") else pr)
     if not np.array_equal(got != 0, exp != 0):
         res.fail("cells", expected=nz(exp), observed=nz(got), where="compute_pianoroll cells", detail=detail)
         return
@@ -434,7 +434,7 @@ def check_roll(res, case, o, stats, cache):
         return
     if idx is not None:
         idx = np.asarray(idx)
-        if not np.issubdtype(idx.dtype, np.integer) or not idx_matches(idx, ref["idx"]):
+        if not idx_matches(idx, ref["idx"]):
             res.fail("index-rows", expected=idx_text(ref["idx"]), observed=idx.tolist(), where="compute_pianoroll index rows", detail=detail)
             return
     # round trip, where the statement promises it
